@@ -18,7 +18,7 @@ import re
 from . import pipeline as P
 
 CONTENTS = ["a\\tb", "a\tb", "tab\tin\ttext", "line1\n\n\n\n\nline2", "line1\n\n\nline2\n", "trail   \nnext", "trail\t\nnext", "\n\n\n", "   \n   \n   \nx", "x" * 130, "word " * 40,
-            "a\n\tindented with a tab\n\t\tmore", "a\n    indented\n\n\n    more", "quote ' and \" inside", "back\\\\slash\nnext", "{braces}", "ends with blank lines\n\n\n\n", "\n\n\nstarts with blank lines",
+            "a\n\tindented with a tab\n\t\tmore", "a\n    indented\n\n\n    more", "quote ' and \" inside", "back\\\\slash\nnext", "{braces}", "ends with blank lines\n\n\n\n", "\n\n\nstarts with blank lines", "\n\n\n    usage: prog [options]\n    ", "\n\n    two blank lines, then indented", "\n\n\n\n\nfive blank lines first",
             "x\n" + " " * 8 + "\n" + " " * 8 + "\ny", "mixed \t \t end   "]
 PREFIXES = ["", "r", "b", "f", "rb", "R", "F", "rf", "fR", "U", "Rb", "B"]
 
@@ -54,6 +54,10 @@ def literal(prefix, content, triple):
 
 FRAMES = [
     "x = {L}\nprint(x)\n",
+    # surplus blank lines BEFORE the literal (a layout step that shortens them shifts every later position of the text)
+    "first = 1\n" + "\n" * 14 + "x = {L}\nprint(first, x)\n",
+    "first = 1\n" + "\n" * 6 + "second = 2\n" + "\n" * 6 + "third = 3\n" + "\n" * 6 + "def f():\n    y = {L}\n    return y\n\n\nprint(first, second, third, f())\n",
+    "def early():\n    a = 1\n" + "\n" * 9 + "    return a\n" + "\n" * 9 + "x = {L}\nprint(early(), x)\n",
     "def f():\n    y = {L}\n    return y\n\n\nprint(f())\n",
     "class C:\n    attr = {L}\n\n    def m(self, z={L}):\n        return z\n\n\nprint(C().m(), C.attr)\n",
     "print(len({L}), [{L}, ({L},)])\n",
